@@ -96,6 +96,10 @@ def natural_matrix(ctx):
         # screening disabled: induced potential identically zero in every frame
         dict(dev="bar", dt_init=d6, dt_max=0.1, current=4.0, field=0.5, solve_time=0.3, k=2),
         dict(dev="barhole", adaptive=False, dt_init=d6, current=2.0, field=1.0, solve_time=0.2, k=3),
+        # history: layer parameter changed IN PLACE (device.layer.london_lambda = ...) between two screening runs on one
+        # meshed device: the second run must screen with the new Lambda (reference from the values asked for)
+        dict(dev="bar", screening=True, tol=1e-3, adaptive=False, dt_init=d6, current=4.0, field=0.5, solve_time=4 * d6 - d6 / 2, k=2,
+             layer_edit=dict(lam=1.0)),
         # history: screening disabled, but the run is seeded (seed_solution=) from a SCREENED solution whose induced
         # potential is not zero: the clause "identically zero with screening disabled" must still hold in every frame
         dict(dev="bar", adaptive=False, dt_init=d6, current=4.0, field=0.5, solve_time=4 * d6 - d6 / 2, k=2,
@@ -182,6 +186,8 @@ def run(ctx):
     # vacuity guards
     st = [t["stats"] for t in ntraces]
     scr = [t for t in ntraces if t["params"].get("screening")]
+    if not any(t["params"].get("layer_edit") and t["stats"]["frames"] >= 2 and t["stats"]["max_screening_iterations"] >= 2 for t in ntraces):
+        raise core.MachineryFailure("no screening run after an in-place layer edit")
     seeded = [t for t in ntraces if t["params"].get("seed") is not None and not t["params"].get("screening")]
     if not any((t["stats"]["seed_max_induced"] or 0) > 0 and t["stats"]["frames"] >= 2 for t in seeded):
         raise core.MachineryFailure("no unscreened run seeded from a screened solution with a non-zero induced potential")
@@ -235,7 +241,9 @@ def describe(ctx):
                        "attempt is; distinct = distinct inputs")
     ctx.assume("scripted replays: solve_for_psi_squared and get_A_induced_numba (name in tdgl.solver.solver) are replaced at run "
                "time; update, get_induced_vector_potential (Polyak step, error), the operators and the Poisson solve are the real code")
-    ctx.assume("frame self-consistency uses Mesh.get_quantity_on_site (real code) to average the stored edge currents onto sites "
+    ctx.assume("frame self-consistency and the in-situ kernel relation use harness.stepctl.ScreeningOracle: site currents by the "
+               "harness's own unit-direction-weighted average over raw mesh arrays, prefactor 1/(pi Lambda) and coordinates from the "
+               "layer parameters the harness asked for (nothing read back from Device.K0/A0, TDGLSolver.areas/sites or mesh helpers), "
                "and harness.stepctl.ref_induced (numpy, itself validated by TLC on the exact instances) for the double sum; "
                "mismatch = max over edges of |A_stored - sum| / |A_stored|, bound 3 x tolerance")
     ctx.assume("natural runs: Polyak / error / kernel relations are evaluated by the harness on the logged arrays with relative "
